@@ -99,8 +99,8 @@ def body(data, hist):
                 'author': AUTHOR, 'base_back': 0})
     P = max(w.prs)
     kind = pick(('wait', 'wait_slash', 'dep_open', 'dep_open', 'dep_declined',
-                 'dep_merged', 'dep_unknown', 'dep_nonnumeric', 'dep_two'),
-                'hold')
+                 'dep_merged', 'dep_unknown', 'dep_nonnumeric', 'dep_two',
+                 'dep_two'), 'hold')
     deps = []
     if kind.startswith('dep_') and kind not in ('dep_unknown',
                                                 'dep_nonnumeric'):
@@ -176,6 +176,17 @@ def body(data, hist):
                 'dep_declined', 'dep_merged'):
         for i in range(len(texts)):
             hist.apply({'op': 'delete_comment', 'pr': P, 'nth': 0})
+    if kind == 'dep_two' and len(deps) == 2:
+        # one dependency merged, the other still open: P must still be held
+        for s in merge_steps(hist, deps[0]):
+            hist.apply(s)
+        for _ in range(2):
+            hist.apply({'op': 'report_pr', 'pr': P, 'state': 'SUCCESSFUL'})
+            hist.apply({'op': 'pr_event', 'pr': P})
+            if hist.violations:
+                return
+        hist.flags.add('c12_partial_dependencies')
+        lift = merge_steps(hist, deps[1])
     for s in lift:
         hist.apply(s)
         if hist.violations:
